@@ -311,7 +311,7 @@ def nontrivial(case, impl_lines):
 def classify(case, detail, impl_lines):
     if 'crash' in detail or 'missing-observation' in detail:
         return 'crash'
-    for key in ('lost-start', 'start-at-end-instant'):
+    for key in ('lost-start',):
         if 'finding=' + key + ' ' in detail:
             return key
     for part in detail.split():
